@@ -35,6 +35,23 @@ def conc(rounds, threads):
     rc, out = sh(f"{CONC}/target/release/c18conc {SEED} {rounds} {threads}", CONC)
     return rc, out
 
+STACK_KIB = 64
+
+def stackprobe():
+    """the same fixed transcript on an 8 MiB-stack thread and on a small-stack thread: same digest, and the
+    process survives (the unchanged library needs less than a quarter of the small stack in this build)"""
+    rc1, out1 = sh(f"{SIM}/target/release/hpke-sim stackprobe 8192", SIM)
+    rc2, out2 = sh(f"{SIM}/target/release/hpke-sim stackprobe {STACK_KIB}", SIM)
+    d1 = re.search(r"digest=([0-9a-f]+)", out1)
+    d2 = re.search(r"digest=([0-9a-f]+)", out2)
+    if rc1 != 0 or not d1:
+        return ("err", f"stackprobe on a large stack failed rc={rc1}: {out1[-1500:]}")
+    if rc2 != 0 or not d2:
+        return ("viol", f"the transcript that completes on an 8 MiB-stack thread (digest {d1.group(1)}) kills the process on a thread with a {STACK_KIB} KiB stack (exit status {rc2}):\n{out2[-1500:]}")
+    if d1.group(1) != d2.group(1):
+        return ("viol", f"transcript digest depends on the thread: {d1.group(1)} on an 8 MiB stack, {d2.group(1)} on a {STACK_KIB} KiB stack")
+    return None
+
 def miri(seeds, rounds, threads):
     e = dict(ENV, MIRIFLAGS=f"-Zmiri-many-seeds=0..{seeds} -Zmiri-preemption-rate=0.1")
     return sh(f"cargo +nightly miri run --offline -- {SEED} {rounds} {threads}", CONC, e, timeout=6 * 3600)
@@ -67,10 +84,19 @@ def run(tier):
     p = subprocess.run([SIM + "/target/release/hpke-sim", "run", "C18", "--tier", tier, "--seed", SEED], cwd=SIM)
     if p.returncode == 2: return 2
     sim_rc = p.returncode
+    r = stackprobe()
+    if r is not None:
+        kind, out = r
+        if kind == "viol":
+            violation("stack", out, {"stack_kib": STACK_KIB})
+            augment({"small_stack_thread": "FAILED"}, 1, tier=tier)
+            return 1
+        print("HARNESS ERROR: " + out); return 2
     rounds = 2000 if tier == "thorough" else 300
     rc, out = conc(rounds, 4)
     extra = {"sendsync_assertions": "compiled: AeadCtxS/R, AeadTag for 48 suites; public/private/encapsulated keys, OpModeS/R for 4 KEMs; PskBundle; HpkeError",
              "concurrent_export_rounds": rounds, "concurrent_threads": 8,
+             "small_stack_thread": f"fixed transcript (4 KEMs x 4 suites, AuthPsk, 700-byte info/aad/exporter context, exports up to 255*Nh) completes with the same digest on a {STACK_KIB} KiB-stack thread as on an 8 MiB one; assumption: {STACK_KIB} KiB is 4x what the unchanged library needs in this build (it completes on the 16 KiB minimum)",
              "concurrent_note": "uncontrolled OS interleaving: a mismatch cannot be a false alarm (results are schedule-independent if the property holds) but may need repetitions to reproduce; the deterministic, replayable part is the token-passing simulation and Miri"}
     if rc != 0:
         violation("conc", "concurrent exports / sessions differ from their sequential results:\n" + out, {"rounds": rounds, "threads": 4})
@@ -96,6 +122,13 @@ def replay(path):
     eng = d.get("engine", "")
     if eng == "c18-sendsync":
         r = sendsync()
+        if r and r[0] == "viol":
+            print(r[1][-2000:]); print(f"VIOLATION property=C18 replay={path}"); return 1
+        print("replay did not reproduce"); return 0
+    if eng == "c18-stack":
+        rc, out = sh("cargo build --release --offline", SIM)
+        if rc != 0: return 2
+        r = stackprobe()
         if r and r[0] == "viol":
             print(r[1][-2000:]); print(f"VIOLATION property=C18 replay={path}"); return 1
         print("replay did not reproduce"); return 0
